@@ -17,7 +17,7 @@ from nssverif.f64 import bits
 from nssverif.kit import PropertyRun
 
 STRINGS = {"plain": "NuSpaceSim run 7", "quote": 'He said "hi" and \'bye\'', "backslash": "C:\\path\\new\\table", "nonascii": "Ångström ν_τ 宇宙",
-           "newline": "line1\nline2\ttab", "empty": ""}
+           "newline": "line1\nline2\ttab", "crlf": "first\r\nsecond\rthird\n\r", "empty": ""}
 ASTROPY_UNIT = {"km": "km", "m": "m", "cm": "cm", "mm": "mm", "rad": "rad", "deg": "deg", "arcmin": "arcmin", "arcsec": "arcsec", "m2": "m2",
                 "cm2": "cm2", "MHz": "MHz", "GHz": "GHz", "kHz": "kHz", "Hz": "Hz", "dB": "dB"}
 
@@ -115,6 +115,15 @@ def events(plan_units, plan_variants, seed, nvariants):
     from nuspacesim.config import NssConfig, Simulation, Detector, create_toml, config_from_toml
     rng = np.random.default_rng(seed)
     ev = []
+    # a complete small simulation (both channels) and the radio SNR chain run FIRST in this process: whatever a stage leaves behind in
+    # process-wide state (astropy unit equivalencies, numpy / locale settings) must not change what a configuration accepts afterwards
+    try:
+        from nssverif import pipeline
+        from nuspacesim.simulation.eas_radio import radio_antenna as _ra
+        pipeline.run_compute({"mode": "Diffuse", "thrown": 80}, seed, "sync", False, None)
+        _ra.calculate_snr(np.ones((2, 27)), (30.0, 300.0), 525.0, 10, 1.8)
+    except Exception:
+        pass
     # ---- units
     for field, form, unit in plan_units:
         for v in (float(rng.choice([1.0, 0.5, 7.25, 1e-3, 123.456])), float(rng.uniform(0.1, 50))):
